@@ -239,6 +239,13 @@ def step (s : St) (ws : List String) : St × String :=
           | some e => (s, s!"{e.time} {showRat e.interest} {showRat e.nlvPre} {showRat e.nlvPost} {showTrades e.trades} tgt={showKV e.target} pos={showKV e.posPost}")
           | none => (s, "none")
       | none => (s, "bad-op")
+  | ["recn", i] =>
+      match i.toNat? with
+      | some i =>
+          match s.slot.st.broker.record[i]? with
+          | some e => (s, s!"{e.time} {showRat e.interest} {showRat e.nlvPre} {showRat e.nlvPost}")
+          | none => (s, "none")
+      | none => (s, "bad-op")
   | ["book", k] =>
       let b := s.slot.st.broker.ex.books k
       (s, s!"{showORat b.bid} {showORat b.ask} {b.alive}")
